@@ -105,6 +105,7 @@ class Executor:
         self.cur_callees = contract.callees
         self.cur_fn = fn
         self.oid_counts = {}
+        self.used_checks = set()
 
     # ------------------------------------------------------------------ obligations
     def rel(self, node):
@@ -277,6 +278,8 @@ class Executor:
             r = Ref('list')
             st.heap[r.id] = ListContent(st.heap[a.id].items + st.heap[b.id].items)
             return r
+        if (isinstance(a, Ref) and isinstance(st.heap[a.id], ArrContent)) or (isinstance(b, Ref) and isinstance(st.heap[b.id], ArrContent)):
+            return self.elementwise(st, op, a, b, node)
         if isinstance(a, bool):
             a = int(a)
         if isinstance(b, bool):
@@ -337,15 +340,7 @@ class Executor:
                 q = abs(a) // abs(b)
                 return q if (a >= 0) == (b > 0) else -q
             return a // b
-        a, b = to_z3(a), to_z3(b)
-        # z3 div: floor for positive divisor, ceiling for negative divisor (remainder always >= 0)
-        q = a / b
-        if trunc:
-            m = a % b
-            return z3.If(z3.Or(a >= 0, m == 0), q, z3.If(b > 0, q + 1, q - 1))
-        # python floor
-        m = a % b
-        return z3.If(z3.Or(b > 0, m == 0), q, q - 1)
+        return self.intdiv_nochk(a, b, trunc, st)
 
     def intmod(self, st, a, b, node, trunc):
         self.oblige(st, 'safe:div', node, (to_z3(b) != 0) if is_z3(b) else (b != 0), 'modulus is non-zero')
@@ -356,13 +351,29 @@ class Executor:
                 r = abs(a) % abs(b)
                 return r if a >= 0 else -r
             return a % b
-        q = self.intdiv_nochk(a, b, trunc)
+        q = self.intdiv_nochk(a, b, trunc, st)
         return to_z3(a) - to_z3(b) * q
 
-    def intdiv_nochk(self, a, b, trunc):
+    def euclid(self, a, b, st):
+        """(q, m) with a == b*q + m, 0 <= m < |b| (z3's div/mod).  For a symbolic divisor the pair is introduced
+        by its defining equation (div/mod elimination), which the nonlinear solvers handle far better"""
+        if z3.is_int_value(b):
+            return a / b, a % b
+        key = (a.get_id(), b.get_id())
+        cache = getattr(self, '_euclid_cache', None)
+        if cache is None:
+            cache = self._euclid_cache = {}
+        if key not in cache:
+            q, m = z3.Int(fresh_name('q')), z3.Int(fresh_name('m'))
+            cache[key] = (q, m, z3.Implies(b != 0, z3.And(a == b * q + m, m >= 0, m < z3.If(b > 0, b, -b))))
+        q, m, ax = cache[key]
+        if not any(ax.eq(c) for c in st.pc[-40:]):
+            st.pc.append(ax)
+        return q, m
+
+    def intdiv_nochk(self, a, b, trunc, st):
         a, b = to_z3(a), to_z3(b)
-        q = a / b
-        m = a % b
+        q, m = self.euclid(a, b, st)
         if trunc:
             return z3.If(z3.Or(a >= 0, m == 0), q, z3.If(b > 0, q + 1, q - 1))
         return z3.If(z3.Or(b > 0, m == 0), q, q - 1)
@@ -564,10 +575,64 @@ class Executor:
         return list(reversed(idx))
 
     def array_view(self, st, base, c, eff, node):
-        raise OutOfSubset('partial indexing (array view) at line %d' % node.lineno)
+        # a[i] of an n-d array: read-only copy of the sub-array (stores into it are out of subset)
+        r = Ref('view')
+        st.heap[r.id] = ArrContent(c.shape[len(eff):], arr_select(c.data, eff), c.kind, c.elem_ctype, c.numpy)
+        st.heap[r.id].readonly = True
+        return r
 
     def array_slice(self, st, base, c, ix, node):
-        raise OutOfSubset('array slicing at line %d' % node.lineno)
+        """a[i, :], a[:, j], a[i, j, :, :] ... with full slices only (read-only copies)"""
+        ix = list(ix)
+        if len(ix) < c.ndim:
+            ix = ix + [slice(None, None, None)] * (c.ndim - len(ix))
+        if len(ix) != c.ndim:
+            raise OutOfSubset('slice with too many indices at line %d' % node.lineno)
+        newshape, binders, sel = [], [], []
+        for k, i in enumerate(ix):
+            if isinstance(i, slice):
+                if not (i.start is None and i.step is None):
+                    raise OutOfSubset('partial slice at line %d' % node.lineno)
+                b = z3.Int(fresh_name('sl'))
+                binders.append(b)
+                sel.append(b)
+                if i.stop is None:
+                    newshape.append(c.shape[k])
+                else:
+                    # a[:n]: python clamps; n < 0 counts from the end
+                    n, e = to_z3(i.stop), to_z3(c.shape[k])
+                    newshape.append(z3.If(n < 0, z3.If(e + n > 0, e + n, 0), z3.If(n < e, n, e)))
+            else:
+                sel.append(self.index_value(st, c, i, c.shape[k], node, 'array axis %d' % k))
+        body = arr_select(c.data, sel)
+        for b in reversed(binders):
+            body = z3.Lambda([b], body)
+        r = Ref('slice')
+        st.heap[r.id] = ArrContent(tuple(newshape), body, c.kind, c.elem_ctype, c.numpy)
+        st.heap[r.id].readonly = True
+        return r
+
+    def elementwise(self, st, op, a, b, node):
+        """numpy broadcasting of a binary operator over 1-d arrays / scalars"""
+        ca = st.heap[a.id] if isinstance(a, Ref) else None
+        cb = st.heap[b.id] if isinstance(b, Ref) else None
+        arrs = [c for c in (ca, cb) if c is not None]
+        if any(not isinstance(c, ArrContent) or c.ndim != 1 for c in arrs):
+            raise OutOfSubset('elementwise operation on non-1d operands at line %d' % node.lineno)
+        if len(arrs) == 2:
+            self.oblige(st, 'safe:broadcast', node, to_z3(ca.shape[0]) == to_z3(cb.shape[0]), 'operands have equal length')
+        i = z3.Int(fresh_name('ew'))
+        x = z3.Select(ca.data, i) if ca is not None else a
+        y = z3.Select(cb.data, i) if cb is not None else b
+        saved = len(self.obligations)
+        val = self.binop(st, op, x, y, node)
+        # obligations generated for the generic element (e.g. division) are quantified over the index
+        for ob in self.obligations[saved:]:
+            ob.goal = z3.ForAll([i], z3.Implies(z3.And(i >= 0, i < to_z3(arrs[0].shape[0])), ob.goal))
+        kind = 'real' if is_real(val) else 'int'
+        r = Ref('ndarray')
+        st.heap[r.id] = ArrContent(arrs[0].shape, z3.Lambda([i], to_z3(val)), kind, None, True)
+        return r
 
     def subscript_store(self, st, base, idx, val, node):
         if isinstance(base, VPtr):
@@ -585,6 +650,8 @@ class Executor:
         if isinstance(base, Ref):
             c = st.heap[base.id]
             if isinstance(c, ArrContent):
+                if getattr(c, 'readonly', False):
+                    raise OutOfSubset('store through an array view at line %d' % node.lineno)
                 ix = idx if isinstance(idx, VTuple) else VTuple((idx,))
                 if any(isinstance(i, slice) for i in ix) or len(ix) != c.ndim:
                     raise OutOfSubset('slice/partial store at line %d' % node.lineno)
@@ -812,6 +879,8 @@ class Executor:
             lo, hi, step = f(node.lower), f(node.upper), f(node.step)
             if all(x is None or isinstance(x, int) for x in (lo, hi, step)):
                 return slice(lo, hi, step)
+            if (lo is None or (isinstance(lo, int) and lo == 0)) and step is None and is_int(hi):
+                return slice(None, hi, None)     # a[:n] with symbolic n
             raise OutOfSubset('symbolic slice at line %d' % node.lineno)
         if isinstance(node, ast.Tuple):
             return VTuple(self.ev_index(e, st) for e in node.elts)
@@ -1077,6 +1146,13 @@ class Executor:
         return res
 
     def exec_stmt_inner(self, s, st):
+        if self.contract.checks and self.cur_fn is self.fn and not isinstance(s, (ast.If, ast.For, ast.While, ast.With, ast.Try)):
+            line = self.cur_fn.srcfile.line(s.lineno)
+            for (pat, fn) in self.contract.checks:
+                if re.search(pat, line):
+                    self.used_checks.add(pat)
+                    for (lab, f) in S.labelled(fn(self.view(st)), 'chk'):
+                        self.oblige(st, 'check', s, f, 'write-time contract at `%s`' % line.strip(), label=lab)
         m = getattr(self, 'x_' + type(s).__name__, None)
         if m is None:
             raise OutOfSubset('statement %s at line %d' % (type(s).__name__, s.lineno))
@@ -1820,6 +1896,9 @@ class Executor:
                     self.oblige(s2, 'raises', node, S.conj(allowed(self.view(s2))), 'raise %s only when allowed' % exc, label=exc)
             else:
                 raise OutOfSubset('function ends with %r' % (out,))
+        for (pat, _) in self.contract.checks:
+            if pat not in self.used_checks:
+                raise ContractDrift('write-time contract /%s/ of %s binds to no statement' % (pat, self.fn.name))
         unused = set(self.contract.loops) - self.used_loopspecs
         if unused:
             raise ContractDrift('loop contracts %s of %s bind to no loop' % (sorted(unused), self.fn.name))
